@@ -23,6 +23,7 @@ struct eng_profile {
         unsigned p_lookup;          /* per-mille chance per service step that the harness calls the lookup helpers of the public API */
         unsigned p_cut;             /* % of histories whose stimulus phase is cut at a random step (progress measured from mid-flight) */
         unsigned p_toggle;          /* per-mille chance per service step that the harness flips the disable flag of a command or a group */
+        unsigned p_empty_name;      /* % of commands whose name is the empty string (sanitizer workload only) */
         unsigned p_nul;             /* % of lines with a NUL byte in or after them */
         unsigned p_stray_cr;        /* % of request lines with a CR that is not followed by LF */
         bool unspecified_cells;     /* also enter cells the properties leave open (C03 replay only) */
